@@ -308,3 +308,7 @@ CLAUSES = [
            what="random kbmag record texts (tables, alphabets, spacing/newlines, interval syntax, quoted names) and the 18 built-in files: "
                 "loaded edges and start state equal the table in the text (independent regex reading for the built-ins)"),
 ]
+
+# character-level parser clauses (text -> record), written by the main session
+from props._c09parse import CLAUSES_PARSE  # noqa: E402
+CLAUSES = CLAUSES + CLAUSES_PARSE
